@@ -2,7 +2,7 @@
 (* Rectangle predicates in three objectives under the componentwise order (orthant),
    the only 3-D cone of the exact geometric specification (DESIGN 2).            *)
 EXTENDS VOGeometry, TLC
-CONSTANTS G, Slacks
+CONSTANTS G, Slacks, Cones3     \* Cones3: extra 3-D integer cones for the forall-forall predicate (vertex pairs are exact in any dimension)
 VARIABLES cfg, ans
 Orth3 == << <<1,0,0>>, <<0,1,0>>, <<0,0,1>> >>
 C3 == (0..G) \X (0..G) \X (0..G)
@@ -18,6 +18,11 @@ Init ==
              pdom   |-> << LeqV(Sub(r2.lo, One3), r1.lo), LeqV(r2.lo, r1.lo), LeqV(Add(r2.lo, One3), r1.lo) >>,
              pdomdef |-> \A v \in Pts(r1) : \E z \in Pts(r2) : LeqV(z, v) ]
 Next == UNCHANGED <<cfg, ans>>
+\* general 3-D cones: is_dominated only (definition over all lattice points = vertex pairs)
+InitC == /\ cfg \in [W : Cones3, r1 : Boxes3, r2 : Boxes3, s : Slacks]
+         /\ ans = [ dom    |-> << DomT(cfg.W, cfg.r1, cfg.r2, cfg.s, -1), Dom(cfg.W, cfg.r1, cfg.r2, cfg.s), DomT(cfg.W, cfg.r1, cfg.r2, cfg.s, 1) >>,
+                    domdef |-> DomDef(cfg.W, cfg.r1, cfg.r2, cfg.s) ]
+DomThmC == ans.dom[2] = ans.domdef /\ (ans.dom[3] => ans.dom[2]) /\ (ans.dom[2] => ans.dom[1])
 DomThm  == ans.dom[2] = ans.domdef
 CovThm  == ans.cov[2] = ans.covdef
 PDomThm == ans.pdom[2] = ans.pdomdef
